@@ -11,6 +11,7 @@ mod ty;
 mod st;
 mod sd;
 mod sk;
+mod wr;
 mod util;
 
 #[global_allocator]
@@ -39,6 +40,7 @@ fn main() {
         "big" => dom::big(&args),
         "sd-replay" => sd::replay(&args),
         "sk-record" => sk::record(&args),
+        "wr-replay" => wr::replay(&args),
         "nest" => nest(&args),
         _ => { eprintln!("unknown command {cmd}"); 2 }
     };
